@@ -30,7 +30,7 @@ pub fn parse_op(s: &str) -> Op {
         "et" => Op::TableExists(id),
         "st" => Op::DescribeTable(id),
         "lt" => Op::ListTables(id, tok, lim),
-        "rt" => Op::RegisterTable(id, w.get(2).unwrap_or(&"x.lance").to_string()),
+        "rt" => Op::RegisterTable(id, w.get(2).map(|x| if *x == "<>" { "" } else { *x }).unwrap_or("x.lance").to_string()),
         "ut" => Op::DeregisterTable(id),
         x => panic!("unknown op {x}"),
     }
